@@ -42,12 +42,12 @@ func (r rngReader) Read(p []byte) (int, error) {
 
 type Fault struct {
 	Pos  int    `json:"pos"`  // index of the block request within the sync
-	Kind string `json:"kind"` // flip | trunc | append | empty | big | other | status
-	Arg  int    `json:"arg"`  // bit index / length / byte count / block rank / status code
+	Kind string `json:"kind"` // flip | trunc | append | empty | big | other | status | cut
+	Arg  int    `json:"arg"`  // bit index / length / byte count / block rank / status code / bytes delivered before the connection is closed
 }
 
 type SyncJ struct {
-	T      string  `json:"t"` // ad | entries
+	T      string  `json:"t"` // ad | entries | one
 	Head   int     `json:"head"`
 	Stop   int     `json:"stop,omitempty"`
 	Depth  int64   `json:"depth,omitempty"`
@@ -63,8 +63,9 @@ type PreJ struct {
 type Scn struct {
 	Kind  string  `json:"kind"`
 	Hash  string  `json:"hash"`
-	Ads   int     `json:"ads"`    // advertisement chain: ranks 1..Ads (Ads = newest)
-	Chunk int     `json:"chunks"` // then an entries chain: ranks Ads+1..Ads+Chunk (last = first chunk)
+	Ads   int     `json:"ads"`           // advertisement chain: ranks 1..Ads (Ads = newest)
+	Chunk int     `json:"chunks"`        // then an entries chain: ranks Ads+1..Ads+Chunk (last = first chunk)
+	Raw   int     `json:"raw,omitempty"` // then raw-codec leaf blocks: ranks Ads+Chunk+1.. (served by the test server itself)
 	Pre   []PreJ  `json:"pre,omitempty"`
 	Syncs []SyncJ `json:"syncs"`
 }
@@ -89,7 +90,7 @@ var (
 )
 
 func getWorld(sc Scn) *builtWorld {
-	key := fmt.Sprintf("%s|%d|%d", sc.Hash, sc.Ads, sc.Chunk)
+	key := fmt.Sprintf("%s|%d|%d|%d", sc.Hash, sc.Ads, sc.Chunk, sc.Raw)
 	if bw, ok := worlds[key]; ok {
 		return bw
 	}
@@ -101,6 +102,9 @@ func getWorld(sc Scn) *builtWorld {
 	w.Proto = cidlink.LinkPrototype{Prefix: cid.Prefix{Version: 1, Codec: cid.DagJSON, MhType: uint64(hk[0]), MhLength: int(hk[1])}}
 	w.AdChain(sc.Ads, cid.Undef)
 	w.ChunkChain(sc.Chunk)
+	for i := 0; i < sc.Raw; i++ {
+		w.AddRaw([]byte(fmt.Sprintf("raw leaf %d of the %s world: 0123456789abcdefghijklmnopqrstuvwxyz", i, sc.Hash)))
+	}
 	bw := &builtWorld{w: w, srv: syncdrv.NewServer(w, pubKey)}
 	worlds[key] = bw
 	return bw
@@ -168,6 +172,8 @@ func applyFault(f Fault, w *syncdrv.World, status int, body []byte) (int, []byte
 		return status, w.Blocks[f.Arg-1].Raw
 	case "status":
 		return f.Arg, body
+	case "cut":
+		return status, body // the connection is cut by the server's Cutter
 	}
 	panic("fault kind " + f.Kind)
 }
@@ -205,7 +211,13 @@ func runScn(c *vlib.Ctx, sc Scn, verbose bool) {
 				}
 			}
 			a := answer{req: w.RankOf(rc)}
-			if status == 200 {
+			cutHere := false
+			for _, f := range sy.Faults {
+				if f.Pos == idx && f.Kind == "cut" && f.Arg < len(body) {
+					cutHere = true
+				}
+			}
+			if status == 200 && !cutHere {
 				switch {
 				case hashesTo(body, rc):
 					a.content, a.good = a.req, true
@@ -228,6 +240,14 @@ func runScn(c *vlib.Ctx, sc Scn, verbose bool) {
 			so.answers = append(so.answers, a)
 			return status, body
 		})
+		srv.SetCutter(func(idx int, rc cid.Cid) int {
+			for _, f := range sy.Faults {
+				if f.Pos == idx && f.Kind == "cut" {
+					return f.Arg
+				}
+			}
+			return -1
+		})
 		err, pan := syncdrv.Call(func(ctx context.Context) error {
 			var so []dagsync.SyncOption
 			if sy.Depth != 0 {
@@ -246,6 +266,8 @@ func runScn(c *vlib.Ctx, sc Scn, verbose bool) {
 				return err
 			case "entries":
 				return sub.S.SyncEntries(ctx, srv.AddrInfo(), w.CidOf(sy.Head), so...)
+			case "one":
+				return sub.S.SyncOneEntry(ctx, srv.AddrInfo(), w.CidOf(sy.Head))
 			}
 			panic("sync type " + sy.T)
 		})
@@ -307,7 +329,16 @@ func runScn(c *vlib.Ctx, sc Scn, verbose bool) {
 			if a.content == -1 {
 				c.Count("observation:real-digest-collision")
 			}
-			if !a.good && bad < 0 {
+			// a bad answer counts unless the implementation asked for the same block again
+			// later in this sync and that answer was good (it may make as many requests as
+			// it likes; the audit of the store is what judges the outcome)
+			repaired := false
+			for _, later := range so.answers[j+1:] {
+				if later.req == a.req && later.good {
+					repaired = true
+				}
+			}
+			if !a.good && !repaired && bad < 0 {
 				bad = j
 			}
 		}
@@ -389,14 +420,17 @@ func runScn(c *vlib.Ctx, sc Scn, verbose bool) {
 		if sy.T == "entries" {
 			view = "VNext"
 		}
+		if sy.T == "one" {
+			view, lim = "VAll", "(Some 0%nat)"
+		}
 		if sy.Stop != 0 {
 			stop = fmt.Sprintf("(Some %d)", sy.Stop)
 		}
-		if sy.Depth >= 1 {
+		if sy.Depth >= 1 && sy.T != "one" {
 			lim = fmt.Sprintf("(Some %d%%nat)", sy.Depth)
 		}
 		segdl := sy.Seg
-		if segdl == 0 || sy.T == "entries" {
+		if segdl == 0 || sy.T != "ad" {
 			segdl = -1
 		}
 		var script, reqs []string
@@ -451,6 +485,6 @@ func main() {
 		return
 	}
 	c.Res.Exhaustive = false
-	c.Res.Rule = "advertisement chains of length 1..4 (sha2-256) and 3 (sha2-256 truncated to 16 / 20, sha2-512, blake2b-256, identity), entries chains of length 2: at every request position of the sync, unsegmented and with segment size 1 / 2: 16 (quick) single-bit flips spread over the body, truncation at sampled lengths (every length for the entry chunks), 1 / 3 / 100 appended bytes, the empty body, a 4 MiB body, the body of every other block, status 404 / 500 / 204; two faults in one sync; pre-stored sound and corrupt entries; sequences of failing and succeeding syncs on one subscriber. non-trivial = a fault that was actually delivered"
+	c.Res.Rule = "advertisement chains of length 1..4 (sha2-256) and 3 (sha2-256 truncated to 16 / 20, sha2-512, blake2b-256, identity), entries chains of length 2: at every request position of the sync, unsegmented and with segment size 1 / 2: 16 (quick) single-bit flips spread over the body, truncation at sampled lengths (every length for the entry chunks), 1 / 3 / 100 appended bytes, the empty body, a 4 MiB body, the body of every other block, status 404 / 500 / 204, a 200 answer cut in mid-body (full Content-Length, k bytes, connection closed; k = 0, 1, half, len-1) followed by good answers to any repeated request and by a clean second sync, on dag-json chains and on raw-codec leaf blocks; two faults in one sync; pre-stored sound and corrupt entries; sequences of failing and succeeding syncs on one subscriber. non-trivial = a fault that was actually delivered"
 	gen(c)
 }
